@@ -182,6 +182,8 @@ RULES = [
     ("C07-R1", "per-group AVG is a real division [shared with C07]", lambda ctx: __import__("c07").r1(ctx)),
     ("C07-R2", "per-group aggregates: primitive / divisor / sqrt table [shared with C07]", lambda ctx: __import__("c07").r2(ctx)),
     ("C07-R3", "rows reach the aggregation buffer once, after the filter [shared with C07]", lambda ctx: __import__("c07").r3(ctx)),
+    ("X-PHASES", "clause order and phase flags of Parser::parse; WHERE shorthand window [shared]", lambda ctx: __import__("extra").parser_phases(ctx)),
+    ("X-BUFFER", "buffering predicates (ordered or aggregate) and recursive expression predicates [shared]", lambda ctx: __import__("extra").buffering_predicates(ctx)),
 ]
 
 EXPLANATION = (
@@ -191,7 +193,8 @@ EXPLANATION = (
     "each of them into the buffered row; the grouped output loop yields exactly one row per partition, evaluates "
     "columns over that partition's rows only, binds the i-th grouping expression to the i-th key component, and "
     "orders group rows a-vs-b / b-vs-a by direction. The separator between group rows is decided under C09-R1. "
-    "Per-group aggregate values, equality of keys as strings and ordering by non-selected keys are not decided.")
+    "Per-group aggregate values, equality of keys as strings and ordering by non-selected keys are not decided."
+    ' Parser::parse sets where_parsed before parse_group_by, so grouping keys are parsed as values.')
 ASSUMPTIONS = ["rustc's HIR faithfully represents the source; exporter and rule scripts are correct", "HashMap semantics"]
 NOT_DECIDED = ["per-group aggregate values (C07 decides the aggregate formulas)", "ordering of group rows by a key that is not selected (position lookup defaults to column 0)",
                "equality of keys compared as strings"]
